@@ -52,6 +52,10 @@ def run(pid, tier, seed, replay):
     binary = vlib.build_overlay_test(wd, "cmd/mcrew", files)
     rep = vlib.Report(pid)
     gen = dist = 0
+    if replay and json.load(open(replay)).get("kind") == "mcrew-system":
+        import system_checks
+        system_checks.mcrew_stage(pid, tier, seed, wd, rep, binary, acts=json.load(open(replay))["acts"])
+        return rep.finish()
     if replay:
         raise vlib.CannotRun("replay of C17 histories: re-run the schedule in the replay file with VERIF_MODE=timers VERIF_TIMERS=sched")
     # (a) the model: every interleaving of requests and timer goroutines, both shapes
